@@ -249,7 +249,7 @@ func streamC04(c *Ctx) {
 							return
 						}
 					}
-					if !oracleOnly && (!lineEq(er.Line, ans) || er.Fired != mFired) {
+					if !oracleOnly && (!sameAnswer(ln, er.Line, ans, parseAll(kv["#all"])) || er.Fired != mFired) {
 						pending = &Replay{Backend: be, Stream: "fault", Case: toIfaces(caseLines), Expected: []string{ans, fmt.Sprint("fired=", mFired), kv["trace"]},
 							Actual: []string{er.Line, fmt.Sprint("fired=", er.Fired), strings.Join(er.Trace, " ")}, Note: fmt.Sprintf("fault at call %d: implementation and model disagree", k)}
 						pendingName = "correspondence K-C04/fault"
@@ -298,4 +298,31 @@ func toIfaceStr(a []string) []interface{} {
 		out = append(out, s)
 	}
 	return out
+}
+
+// sameAnswer: equal result lines; for a SORTED query whose answer has ties the two sides may order the tied documents
+// differently (sort.Slice is not stable, the model's merge sort is): document lists are then compared as multisets, and a
+// single document (FindFirst) by its tie class in the specification's ordered sequence
+func sameAnswer(op J, a, b string, all []idClass) bool {
+	if lineEq(a, b) {
+		return true
+	}
+	q, hasQ := qOf(op)
+	if !hasQ || !qSorted(q) {
+		return false
+	}
+	if da, oka := splitDocs(a); oka {
+		db, okb := splitDocs(b)
+		return okb && sameMultiset(da, db)
+	}
+	if strings.HasPrefix(a, "ok doc {") && strings.HasPrefix(b, "ok doc {") {
+		cls := map[string]int{}
+		for _, ic := range all {
+			cls[ic.Id] = ic.Cls
+		}
+		ca, oka := cls[topId(strings.TrimPrefix(a, "ok doc "))]
+		cb, okb := cls[topId(strings.TrimPrefix(b, "ok doc "))]
+		return oka && okb && ca == cb
+	}
+	return false
 }
